@@ -46,7 +46,9 @@ func (s *Session) SendIQ(ctx context.Context, r xml.TokenReader) (xmlstream.Toke
 	if !ok {
 		return nil, fmt.Errorf("expected IQ start element, got %T", tok)
 	}
-	if !isIQEmptySpace(start.Name) {
+	// The stream's own content namespace is as good as the two core ones (a
+	// component's stream is qualified by neither of them).
+	if !isIQEmptySpace(start.Name) && !(start.Name.Local == "iq" && start.Name.Space == s.out.XMLNS) {
 		return nil, fmt.Errorf("expected start element to be an IQ")
 	}
 
